@@ -13,13 +13,12 @@ def assembleConstGo : Nat → Nat → Bytes
 
 def assembleConst (c : Nat) : Bytes := assembleConstGo 8 c
 
-/-- `check_zero`. -/
+/-- `check_zero`: only `mov r64, imm64` gets the extra zero byte that makes the caller pad to 8 -/
 def checkZero (s : Instr) (saved : Nat) (type : Nat) : Bool :=
-  if inR saved c_NEG32BIT_CHECK c_MAX_UNSIGNED_32BIT && !s.reducedImm && type != c_CONTROL_FLOW then
-    if !band s.opt c_NASM then true
-    else if type != c_DATA_TRANSFER then true
-    else false
-  else false
+  let mode := s.opd0.reg &&& c_MODE_MASK
+  if type != c_DATA_TRANSFER || s.memDisp || (rowAt s.key).enc != c_I then false
+  else if mode != c_reg64 && mode != c_ext64 then false
+  else inR saved c_NEG32BIT_CHECK c_MAX_UNSIGNED_32BIT && !s.reducedImm
 
 /-- `assemble_imm`, first half: the constant's bytes and the optional zero byte -/
 def immCore (s : Instr) : Bytes :=
